@@ -17,7 +17,7 @@ import pymbolic.mapper.constant_folder as foldmod
 
 from ..core import check, short
 from ..gen import expr as G
-from ..gen import scale
+from ..gen import numbers, scale
 from ..mon import streams
 from ..mon.trace import HandlerTrace
 from ..ref import normal, ratfun, refsem
@@ -279,6 +279,63 @@ def c_context(ctx, case):
                 break
 
 
+@check("C11.kinds")
+def c_kinds(ctx, case):
+    """Exponents, coefficients and addends of every KIND of number (floats where ints are usual,
+    numpy scalars, bools, exact rationals made known through the constant registry): each
+    rewrite keeps the value -- (x + 1) ** Fraction(3, 2) is not (x + 1) ** 1."""
+    si, c, register = case
+    mk = KIND_SHAPES[si]
+    import warnings
+    from fractions import Fraction
+    if register:
+        p.register_constant_class(Fraction)
+    try:
+        e = mk(c)
+        rewrites = [("flatten", flatten), ("fold", lambda t: ConstantFoldingMapper()(t)),
+                    ("commutative-fold", lambda t: CommutativeConstantFoldingMapper()(t)),
+                    ("distribute", distribute), ("expand", expand)]
+        for name, f in rewrites:
+            ctx.case(None)
+            ctx.count("kind_rewrites")
+            try:
+                with warnings.catch_warnings():
+                    warnings.simplefilter("ignore")
+                    out = f(e)
+            except RecursionError:
+                raise
+            except Exception as ex:  # noqa: BLE001
+                ctx.count("kind_rewrite_refused:" + type(ex).__name__)
+                continue
+            for xv, yv in ((F(3, 2), F(2)), (F(1, 4), F(-3)), (3, 5)):
+                env = {"x": xv, "y": yv, "z": 2}
+                with warnings.catch_warnings():
+                    warnings.simplefilter("ignore")
+                    want = refsem.outcome(lambda: refsem.ev(e, env))
+                    got = refsem.outcome(lambda: refsem.ev(out, env))
+                if want[0] != "v":
+                    continue
+                ctx.count("kind_values")
+                if got[0] != "v" or not refsem.values_equal(got[1], want[1]):
+                    ctx.fail("C11.kinds", case, f"{name}:value:{numbers.kind_of(c)}",
+                             f"{name}({e}) = {out} [constant {c!r} of kind {numbers.kind_of(c)}]; at "
+                             f"x={xv} y={yv}: {short(got)} instead of {short(want)}")
+                    break
+    finally:
+        if register:
+            p.unregister_constant_class(Fraction)
+
+
+KIND_SHAPES = [
+    lambda c: p.Power(p.Sum((V[0], 1)), c),
+    lambda c: p.Product((V[1], p.Power(p.Sum((V[0], 2)), c), 3)),
+    lambda c: p.Sum((p.Power(p.Sum((V[0], V[1])), c), p.Product((c, V[0])))),
+    lambda c: p.Product((c, p.Sum((V[0], c)), p.Sum((V[1], 1)))),
+    lambda c: p.Power(p.Product((p.Sum((V[0], 1)), p.Sum((V[1], 4)))), c),
+    lambda c: p.Sum((c, V[0], c, p.Product((c, c, V[1])))),
+]
+
+
 def stream_rows(seed, n, shape):
     import random
     r = random.Random(seed)
@@ -537,6 +594,17 @@ def workload(ctx):
                 e = p.Product(tuple(x for _ in range(w)))
                 ctx.run("C11.expand", (e, False))
                 ctx.run("C11.collect", (p.Sum((e, p.Product((2, e)))), frozenset()))
+        # kinds of numbers in every constant position of the rewrites' fragment
+        import numpy as np
+        from fractions import Fraction
+        kconsts = [2.0, 3.0, 0.5, 1.5, -1.0, 1.0, 0.0, True, np.int64(2), np.int32(3), np.float64(2.0),
+                   np.float32(0.5), 2 + 0j, 2**53 + 1, Fraction(3, 2), Fraction(1, 2), Fraction(5, 2),
+                   Fraction(2, 1), Fraction(-1, 2)]
+        for ci, c in enumerate(kconsts):
+            for si in range(len(KIND_SHAPES)):
+                if ctx.mine("kinds"):
+                    ctx.case(("kinds", repr(c), si), True, n=0)
+                    ctx.run("C11.kinds", (si, c, isinstance(c, Fraction)))
         # direct term-collector inputs: sums of fully expanded multiplicative terms
         for i in range(ctx.per_shard(ctx.pick(1500, 30000))):
             def term():
@@ -598,6 +666,7 @@ def workload(ctx):
             ctx.count("handler:" + k, v)
         ctx.count("handler:TermCollector.split_term", tr.counts.get("TermCollector.split_term", 0))
     ctx.floor("wide_nodes", 100)
+    ctx.floor("kind_values", 800)
     ctx.floor("high_powers", 20)
     ctx.floor("stream:rows", 500)
     ctx.floor("stream:values", 500)
